@@ -148,7 +148,9 @@ func (P *Program) expandAuto(c *Contract, fn *ssa.Function) error {
 		// recorders of what splitFirstAndRestLines answered (C09): only printFirstLineOfMsg's call writes them
 		"ghost.ioRestLines", "ghost.ioEol", "PrintCtx.restLines", "PrintCtx.eol",
 		// "the key of the attribute being printed has been written" (C05): set at the key writer's call
-		"ghost.ioKeyed"} {
+		"ghost.ioKeyed",
+		// 1 while a colour switched on by echoColor* has not been reset yet (C06)
+		"ghost.ioColor"} {
 		if hasStr(c.NoKeeps, d) {
 			continue
 		}
